@@ -178,8 +178,13 @@ def oracle_dir(runs):
             # the crash point armed through the environment fired while the dump was being read: nothing verified in this run
             pending.append((mk["cmd"], "ack", mk["reply"]))
             continue
+        if dumpv and dumpv[0].startswith("DUMP-INCONCLUSIVE"):
+            # the child was alive and did not answer a read within 10 s and then 90 s: nothing is concluded
+            stats["inconclusive_slow"] = stats.get("inconclusive_slow", 0) + 1
+            return fails, stats
         if dumpv and dumpv[0].startswith("DUMP-ERROR"):
-            fails.append(dict(name="dumperr-d%d-r%d" % (r["dir"], r["run"]), case=dict(ident, dump=dumpv), what="reading the restarted node failed: " + dumpv[0]))
+            fails.append(dict(name="dumperr-d%d-r%d" % (r["dir"], r["run"]), case=dict(ident, dump=dumpv, log=(r.get("log") or "")[-3000:]),
+                              what="reading the restarted node failed: " + dumpv[0]))
             return fails, stats
         # every acknowledged op is in; each unanswered / error-answered op is in or out
         # (a refused SETEX has no effect whether it was proposed or not: it is not a choice)
@@ -854,7 +859,7 @@ def run(ctx):
         not_followed=dict(directories=len(not_followed), first=not_followed[:3],
                           note="directories in which the code took a step the path model does not follow (reject reason 107: "
                                "a checkpoint fetched under the index the backup loop is writing, a local snapshot at the index of an "
-                               "incoming snapshot whose record a crash left invalid): their event logs are not compared, their dumps are checked"),
+                               "incoming snapshot whose record a crash left invalid; neither seen so far): their event logs are not compared, their dumps are checked"),
         samples=samples[:5],
     ), assumptions=[
         "crash model of the theorems: process death (SIGKILL): everything handed to write(2) survives, buffered WAL records may be lost; "
